@@ -167,6 +167,58 @@ CLAIMED = {
         'constants modelled exactly (binary rounding outside; margin-based discard), max_iter_line_search>=1, absTOL>0, '
         'non-zero line-search denominators. Arc-length solver not covered.',
    technique='Lean 4 proof (induction over histories, fuel bound) + event-trace correspondence', ref='4/C09'),
+ 'C13': dict(
+   text='Hand-written Lean model (Model/Assembly.lean) of the index book-keeping of PanelAssembly (__init__ ranges, get_size, calc_k0/kG0/kM/kT/'
+        'fint/fext loops with row0=p.row_start, get_k0_conn block placement, make_symmetric) and of StiffPanelBay (get_size, running row0/col0 '
+        'of 2-D stiffeners, 1-D stiffeners at 0, base/flange/connection blocks of the three stiffener classes, calc_fext) with every kernel a '
+        'PARAMETER; 24 theorems for ALL lists of panels/stiffeners, series orders and component matrices: ranges tile [0,size), size = sum '
+        'of component sizes, global matrix = mirrored upper triangle of the sum of the stand-alone matrices placed at their range starts '
+        '(+ connection blocks; coupling block always in the upper triangle), block-diagonal without connections, force vectors = '
+        'concatenation, fint = concatenation + k_conn c, bay offsets = range starts for any numbers/orders of the three stiffener kinds, '
+        'bay matrices symmetric, skin_split_invariant (given additivity of the skin kernels over adjacent y-intervals, which C10/C14 supply '
+        'for J), adding a stiffener adds exactly its placed blocks, stiffener contribution symmetric. Tie: every component call made by a '
+        'global method is recorded (kernel, row0, col0, matrix), un-shifted, sent as exact rationals to the Lean driver which re-places it '
+        'with the MODEL offsets; call sequence compared exactly, matrices to 1e-9. Implementation arm: stand-alone sum oracle, skin cut '
+        'elsewhere gives the same k0/kG0/kM, (bay with stiffener) - (bay without) symmetric PSD. Six defects repaired, three recorded.',
+   note='Trusted: Lean kernel, Mathlib, hand model (tied on explored cases); kernel placement at (row0,col0) and PSD of stiffener contributions are '
+        'checked numerically (not proved); 1-D blade flange: beam energy of its kernel as is (two known findings: mass coupling doubled, twist '
+        'stiffness without modulus - .pyx / modelling defects, not repairable here).',
+   technique='Lean 4 proof over hand model (kernels as parameters) + recorded-component driver correspondence + stand-alone-sum oracle', ref='4/C13'),
+ 'C18': dict(
+   text='Hand-written Lean model (Model/ConeCylGlue.lean) of ConeCyl._rebuild (geometry from any subset of r1,r2,H,L with Python truthiness; '
+        'Nxxtop from Fc/MLA/xiLA; prescribed amplitudes), exclude_dofs_matrix (index shifting of both loops, the three dense blocks), '
+        'calc_full_c (both branches), calc_fext (point forces through recorded fg rows, axial edge load, pressure closed form, torque, '
+        'prescribed-displacement columns of k0uk incl. the load-asymmetry amplitude) and linear static; 31 theorems for ALL inputs: derived '
+        'geometry consistent and identical across admissible subsets, Nxxtop[0] in axial equilibrium with Fc, the four blocks are the '
+        'documented partition for every COO list (duplicates) and every prescribed set, exclude/insert are inverse, fext = const + inc x '
+        'incremental (affine, additive, homogeneous in the loads), point-force virtual work, the pressure closed form IS the surface '
+        'integral over the cone (Mathlib interval integrals), static_rhs: with an exact solver every free row of the FULL system K c = f '
+        'holds with all prescribed terms on the right-hand side. Tie: line-protocol correspondence on generated shells (16 models, every '
+        'load kind, every subset), line coverage of the modelled functions gated; implementation arm: virtual work of every load against '
+        'the package\'s own uvw by quadrature, residual of the full system. Two defects repaired (kkk block, load-asymmetry term), three '
+        'recorded (torque as one point force, Nxxtop harmonics dropped for *_bcn, null rows that carry load).',
+   note='Trusted: Lean kernel, Mathlib, hand model (tied on explored cases), fg rows / k0 / sin, cos, pi / solver are parameters taken from the '
+        'running code; rounding not modelled (1e-9). Non-linear static belongs to C09/C17.',
+   technique='Lean 4 proof over hand model + real-analysis theorem for the pressure load + driver correspondence + virtual-work oracle', ref='4/C18'),
+ 'C20': dict(
+   text='Hand-written Lean life-cycle state machines (Model/Lifecycle.lean) of Panel, PanelAssembly, StiffPanelBay and ConeCyl: the lazily '
+        'derived hidden attributes as provenance tokens, and for every public call what it reads, writes, raises and returns as a function '
+        'of (definition, hidden state); 27 theorems over ALL finite call sequences: the invariant "every hidden attribute is unset or '
+        'canonical" is preserved by every step, hence the result of a successful call is the canonical function of the definition '
+        '(history independence, repeat = same result) - proved for the scope in which it is true (partial: zero laminate offset or no '
+        'calc_kt_kr; cone with Fc given or already rebuilt), with kernel-checked counter-examples outside it (kt_kr order dependence, '
+        'connection cache, explicit size, bay assertion order, cone lb default load) and an exact characterisation of which calls can be '
+        'first on a fresh object (all known findings). Tie: random call sequences on recording proxies - outcome class, ordered write '
+        'footprint and hidden-read footprint compared per call with the model; property evaluated on the implementation bit for bit '
+        'against fresh-object references; caller arrays checksummed; 1..16 threads for uvw/strain/stress and integratev.',
+   note='Trusted: Lean kernel, hand model (tied on explored sequences), numbers not modelled (provenance tokens), OpenMP scheduling / races '
+        'outside the model (thread clauses by execution + C11 chunking theorem), ARPACK start vectors random (1e-8). Nine known findings.',
+   technique='Lean 4 proof (invariant over op sequences) over hand life-cycle model + call-sequence footprint correspondence', ref='4/C20'),
+}
+
+NA_REASON = {
+ 'C16': 'glue-level predicates are evaluated inside the C18 check (evidence key c16_glue); a proof-level check of its own (translated trig kernels) is not built yet - see DESIGN.md section 4/C16',
+ 'C17': 'glue-level predicates are evaluated inside the C18 check (evidence key c17_glue); a proof-level check of its own is not built yet - see DESIGN.md section 4/C17',
 }
 
 def main():
@@ -185,7 +237,7 @@ def main():
             level_claimed=dict(category='proof', text=c['text'], design_ref='DESIGN.md section ' + c['ref']),
             level_note=c['note'],
             technique=c['technique']))
-    na = [dict(property_id=p, reason='not yet built in this framework (work in progress; see DESIGN.md section 4 for the planned Lean model and theorems)')
+    na = [dict(property_id=p, reason=NA_REASON.get(p, 'not yet built in this framework (work in progress; see DESIGN.md section 4)'))
           for p in ALL if p not in CLAIMED]
     m = dict(
         version=1,
